@@ -358,12 +358,19 @@ def build_frame(conn, info, e, mod=None):
                                     ident=e["i"], pad_to=pad_to, options=opts)
             raise ValueError(k)
         payload = streams[e["d"]][e["lo"]:e["hi"]]
+        orig_payload = payload
         if mod and "payload" in mod:
             payload = mod["payload"](payload)
         flags = ACK | (PSH if e.get("psh", True) else 0)
         ackno = isn[od] + 1 + e.get("peer_sent", 0)
+        window = 65535
+        if e.get("steer"):
+            # the sender chose the window for the ORIGINAL segment; damage on the wire does not change it
+            window = steer_window(v6, src, dst, isn[e["d"]] + 1 + e["lo"], ackno, flags, orig_payload, opts, e["steer"])
+            e["steered"] = window is not None
+            window = 65535 if window is None else window
         fr = NB.frame_tcp(src, dst, v6, isn[e["d"]] + 1 + e["lo"], ackno, flags, payload, ident=e["i"], pad_to=pad_to,
-                          options=opts, bad_csum=bad)
+                          options=opts, bad_csum=bad, window=window)
         if mod and mod.get("post"):
             fr = mod["post"](fr)
         return fr
@@ -375,6 +382,32 @@ def build_frame(conn, info, e, mod=None):
         if mod and mod.get("post"):
             fr = mod["post"](fr)
         return fr
+
+
+def steer_window(v6, src, dst, seq, ack, flags, payload, opts, target):
+    """choose the (free) TCP window field so that the one's-complement arithmetic of this segment's checksum passes
+    through a chosen boundary.  target = ["fold", v]: value after the FIRST fold of the 32-bit sum == v (e.g. 0x10000);
+    ["final", v]: completely folded sum == v (0xffff -> checksum field 0x0000); ["raw_multiple", 0xffff]"""
+    seg0 = NB.tcp_segment(v6, src["ip"], dst["ip"], src["port"], dst["port"], seq, ack, flags, payload, window=0,
+                          options=opts)
+    seg0 = seg0[:16] + b"\x00\x00" + seg0[18:]
+    s0 = NB.raw_sum16(NB.pseudo(v6, src["ip"], dst["ip"], 6, len(seg0)) + seg0)
+    kind, v = target
+    for w in range(0, 65536):
+        s = s0 + w
+        if kind == "fold":
+            if (s >> 16) + (s & 0xFFFF) == v:
+                return w
+        elif kind == "final":
+            f = s
+            while f >> 16:
+                f = (f >> 16) + (f & 0xFFFF)
+            if f == v:
+                return w
+        elif kind == "raw_multiple":
+            if s % v == 0:
+                return w
+    return None
 
 
 def _flip_fn(off, bit):
@@ -417,6 +450,9 @@ def finish_expand(spec, w, infos, taplog, stats):
                 od = "s" if e["d"] == "c" else "c"
                 e["peer_sent"] = sent[cid][od]
                 sent[cid][e["d"]] = max(sent[cid][e["d"]], e["hi"])
+    for st in spec.get("steer", []):
+        if 0 <= st[0] < len(taplog) and "lo" in taplog[st[0]]:
+            taplog[st[0]]["steer"] = st[1]
     # ---- faults on the tap log
     faults = spec.get("faults", [])
     mods = {}
@@ -495,7 +531,18 @@ def finish_expand(spec, w, infos, taplog, stats):
         outlines.append((t, cid, ln))
     keylog_text, items = apply_keychan(kc, outlines, items, frames_meta, taplog)
     cont = spec.get("container", {})
-    capture = CT.write_capture(items, cont)
+    if cont.get("blocks_seed") is not None and cont.get("fmt", "pcapng") == "pcapng":
+        RB = Rng(cont["blocks_seed"], "blocks")
+        with_blocks = []
+        for it in items:
+            while RB.chance(20):
+                with_blocks.append(("blk", RB.choice(["nrb", "isb", "custom", "custom_nocopy", "unknown"]), RB.bits(30)))
+            with_blocks.append(it)
+        with_blocks.append(("blk", "isb", RB.bits(30)))
+        items_out = with_blocks
+    else:
+        items_out = items
+    capture = CT.write_capture(items_out, cont)
     argv = cli_argv(spec)
     truth = make_truth(spec, infos, taplog, frames_meta, set(drop), cut_lo, cut_hi, dups)
     stats["fault_fired"] = fired
